@@ -263,6 +263,19 @@ def main(argv=None):
                          "failed": pr["failed"], "theorems": pr["theorems"], "srcfacts": srcfacts.last_facts()})
         out_lines.append(f"VIOLATION property={prop} replay={path} no-failing-input-found")
 
+    # thorough tier: independent re-check of the compiled theorems and their whole closure
+    coqchk = None
+    if run_tier == "thorough" and not proof_broken and not replay:
+        with Lock():
+            rc_chk, out_chk = sh(["timeout", "2400", "coqchk", "-silent", "-o", "-R", COQ, "SS"] + ["SS." + f for f in cfg["coq"]], 2500)
+        m = re.search(r"\* Axioms:(.*?)\n\s*\n\* Constants/Inductives relying on type-in-type:(.*?)\n", out_chk, re.S)
+        coqchk = {"rc": rc_chk, "axioms": " ".join(m.group(1).split()) if m else "?",
+                  "type_in_type": " ".join(m.group(2).split()) if m else "?", "tail": out_chk[-600:] if rc_chk else ""}
+        if rc_chk != 0:
+            path = os.path.join(replay_dir, f"{prop}-coqchk.json")
+            dump_json(path, {"property": prop, "what": "coqchk rejected the compiled development", "output": out_chk[-3000:]})
+            out_lines.append(f"VIOLATION property={prop} replay={path} no-failing-input-found")
+
     # 6: evidence
     evaluations = (meta["evaluations"] if meta else 0) + ((meta.get("extra") or {}).get("evaluations", 0) if meta else 0)
     cov = {
@@ -279,6 +292,7 @@ def main(argv=None):
         "extra_legs": ((meta or {}).get("extra") or {}).get("info", {}),
         "srcfacts": srcfacts.last_facts(),
         "explanation": cfg.get("explanation", ""),
+        "coqchk": coqchk if coqchk is not None else "run in the thorough tier only",
         "phase_wall_s": {"facts+proofs": round(t_proofs, 1), "implementation_runs": round(t_child, 1), "coq_case_files": round(time.time() - t1, 1)},
     }
     if cfg.get("exhaustive_in", {}).get(run_tier):
